@@ -275,6 +275,80 @@ fn op_case(case: &mut Case) -> CaseResult {
     Ok(())
 }
 
+/// Large documents (hundreds of kilobytes to a few megabytes, the size of real-world schemas): a generated document
+/// repeated until the target size is reached (the parser does not care about repeated names). Oracle: the text is
+/// accepted, the number of definitions is the expected one, the last definition is the right one and sits on the
+/// right line.
+fn large_case(case: &mut Case) -> CaseResult {
+    let is_ts = case.ch.flip();
+    let target = [300_000usize, 600_000, 1_200_000, 2_500_000][case.ch.below(4)];
+    let (unit, n_defs): (String, usize) = if is_ts {
+        let so = SynOpts { bare_object: false, bare_union: false };
+        let doc = g_ts_doc_with(&mut case.ch, so);
+        let mut o = RenderOpts::canonical();
+        // descriptions as block strings are what makes real schemas expensive to parse
+        o.random_strings = case.ch.flip();
+        o.allow_block = true;
+        (render_ts_doc(&doc, o, Some(&mut case.ch)).text, doc.len())
+    } else {
+        let doc: MOpDoc = g_op_doc(&mut case.ch, false);
+        (render_op_doc(&doc, RenderOpts::canonical(), Some(&mut case.ch)).text, doc.len())
+    };
+    if n_defs == 0 || unit.is_empty() {
+        return Ok(());
+    }
+    let unit = if unit.ends_with('\n') { unit } else { format!("{unit}\n") };
+    let reps = (target / unit.len()).max(2);
+    let text = unit.repeat(reps);
+    let lines_per_unit = unit.matches('\n').count();
+    let detail = json!({"unit": unit, "repetitions": reps, "bytes": text.len()});
+    let t0 = std::time::Instant::now();
+    let (count, last_line): (usize, usize) = if is_ts {
+        let r = guard(|| {
+            parse_type_system_document(&text).map(|d| {
+                let mut ps = PosSink::default();
+                let m = c_ts_ext_doc(&d, &mut ps);
+                (m.len(), ps.recs.iter().map(|r| r.line).max().unwrap_or(0))
+            })
+        })
+            .map_err(|p| panic_failure("parse_type_system_document", &p, detail.clone()))?;
+        match r {
+            Ok(x) => x,
+            Err(e) => return Err(Failure::new("rejects-valid-document:large", format!("a type system document of {} bytes ({} definitions) is rejected: {}", text.len(), n_defs * reps, e.into_message().chars().take(200).collect::<String>()), detail)),
+        }
+    } else {
+        let r = guard(|| {
+            parse_operation_document(&text).map(|d| {
+                let mut ps = PosSink::default();
+                let m = c_op_doc_ext(&d, &mut ps);
+                (m.len(), ps.recs.iter().map(|r| r.line).max().unwrap_or(0))
+            })
+        })
+            .map_err(|p| panic_failure("parse_operation_document", &p, detail.clone()))?;
+        match r {
+            Ok(x) => x,
+            Err(e) => return Err(Failure::new("rejects-valid-document:large", format!("an operation document of {} bytes ({} definitions) is rejected: {}", text.len(), n_defs * reps, e.into_message().chars().take(200).collect::<String>()), detail)),
+        }
+    };
+    case.evals(1);
+    if count != n_defs * reps {
+        return Err(Failure::new("wrong-document:large:definition-count", format!("{count} definitions, expected {}", n_defs * reps), detail));
+    }
+    // the largest reported line lies in the last repetition
+    let lo = lines_per_unit * (reps - 1);
+    if last_line < lo || last_line >= lines_per_unit * reps {
+        return Err(Failure::new("wrong-position:large", format!("the largest reported line is {last_line}, expected within {lo}..{}", lines_per_unit * reps), detail));
+    }
+    case.label(if is_ts { "type-system" } else { "operations" });
+    case.label(&format!("target-{}kB", target / 1000));
+    if t0.elapsed().as_secs() >= 20 {
+        case.label("slow(>=20s)");
+    }
+    case.nontrivial(&(&unit, reps));
+    case.sample(|| json!({"bytes": text.len(), "definitions": count, "seconds": t0.elapsed().as_secs_f64()}));
+    Ok(())
+}
+
 fn ts_case(case: &mut Case) -> CaseResult {
     let wild = case.ch.chance(3, 4);
     let so = SynOpts {
@@ -376,6 +450,8 @@ pub fn run(env: &Env) -> i32 {
 
     rep.campaign("op-docs", env.cases(60_000, 1_000_000), (0, 500), op_case);
     rep.campaign("ts-docs", env.cases(60_000, 1_000_000), (0, 500), ts_case);
+    rep.note("campaign large-documents: a generated document repeated up to 0.3 / 0.6 / 1.2 / 2.5 MB (real-world schema sizes); accepted, right number of definitions, last definition on the right line");
+    rep.campaign("large-documents", env.cases(16, 120), (0, 200), large_case);
     rep.merge_fuzz_summary();
     rep.finish()
 }
